@@ -54,6 +54,8 @@ class Extracted:
         self.attrs = []
         self.canaries = []  # (name, from, to)
         self.tpl_line = 0
+        self.derives = False
+        self.stub = False
 
 
 def parse_template(path):
@@ -156,6 +158,10 @@ def parse_template(path):
                         cur.replaces.append((allf, rule, frm, t))
                 else:
                     raise TemplateError('%s:%d bad replace' % (path, ln))
+            elif d == 'stub':
+                cur.stub = True
+            elif d.startswith('derives'):
+                cur.derives = True
             elif d.startswith('attr'):
                 cur.attrs.append(_lits(d)[0])
             elif d.startswith('canary'):
@@ -355,7 +361,17 @@ def render_extract(ex, mode=None, canary=None):
         text = text.replace(frm, to)
         info['rewrites'].append({'rule': rule, 'from': frm, 'to': to, 'count': n})
     if ex.kind != 'fn':
-        return '\n'.join(ex.attrs + [text]), info
+        extra = ''
+        if ex.derives:
+            dm = re.search(r'#\[derive\(([^)]*)\)\]', raw)
+            traits = [t.strip() for t in dm.group(1).split(',')] if dm else []
+            nm = ex.name
+            if 'Clone' in traits:
+                extra += ('\n// R3: #[derive(Clone)] -> trusted structural clone\nimpl Clone for %s { #[verifier::external_body] fn clone(&self) -> (r: Self) ensures r == *self { unimplemented!() } }' % nm)
+            if 'PartialEq' in traits:
+                extra += ('\n// R3: #[derive(PartialEq)] -> trusted structural equality\nimpl vstd::std_specs::cmp::PartialEqSpecImpl for %s { open spec fn obeys_eq_spec() -> bool { true } open spec fn eq_spec(&self, other: &%s) -> bool { *self == *other } }\nimpl PartialEq for %s { #[verifier::external_body] fn eq(&self, other: &%s) -> bool { unimplemented!() } }' % (nm, nm, nm, nm))
+            info['rewrites'].append({'rule': 'R3', 'from': '#[derive(%s)]' % ', '.join(traits), 'to': 'trusted structural impls of ' + ', '.join(t for t in traits if t in ('Clone', 'PartialEq')), 'count': 1})
+        return '\n'.join(ex.attrs + [text]) + extra, info
     s2 = Source(text)
     m = next(s2.find_code(r'\bfn\s+%s\b' % re.escape(ex.name)), None)
     if m is None:
@@ -416,6 +432,11 @@ def render_extract(ex, mode=None, canary=None):
     if mode == 'twin':
         nm_end = m.end()
         inserts.append((nm_end, nm_end, '__vac'))
+    if ex.stub:
+        # assumed contract: the body is dropped (listed as trusted external_body)
+        inserts.append((bo, bc + 1, '{ unimplemented!() }'))
+        ex.attrs = [a for a in ex.attrs if 'external_body' not in a] + ['#[verifier::external_body]']
+        info['rewrites'].append({'rule': 'STUB', 'from': 'body of ' + ex.name, 'to': 'unimplemented!() (contract assumed, not proved)', 'count': 1})
     out = text
     for a, b, t in sorted(inserts, key=lambda x: (x[0], x[1]), reverse=True):
         out = out[:a] + t + out[b:]
